@@ -59,6 +59,8 @@ enum Via {
     Typed,
     /// `ActorCell::send_serialized` (cluster build)
     Serialized,
+    /// `send_serialized` with a payload the actor's `Msg::deserialize` rejects (`zb`)
+    SerializedBad,
     /// `DerivedActorRef::<DMsg>::send_message`
     Derived,
 }
@@ -67,6 +69,7 @@ fn show_ops(ops: &[Op]) -> String {
     ops.iter()
         .map(|o| match o {
             Op::Send { via: Via::Serialized, .. } => "z".into(),
+            Op::Send { via: Via::SerializedBad, .. } => "zb".into(),
             Op::Send { nested, box_fails, resend, via } => {
                 let mut s = String::from(if *via == Via::Derived { "v" } else { "s" });
                 if *box_fails {
@@ -127,7 +130,12 @@ fn parse_ops(s: &[u8], i: &mut usize) -> Vec<Op> {
             }
             b'z' => {
                 *i += 1;
-                out.push(Op::Send { nested: Vec::new(), box_fails: false, resend: false, via: Via::Serialized });
+                let mut via = Via::Serialized;
+                if *i < s.len() && s[*i] == b'b' {
+                    via = Via::SerializedBad;
+                    *i += 1;
+                }
+                out.push(Op::Send { nested: Vec::new(), box_fails: false, resend: false, via });
             }
             b'k' => {
                 *i += 1;
@@ -279,11 +287,18 @@ impl TryFrom<Msg> for DMsg {
 fn ser(id: u64) -> SerializedMessage {
     SerializedMessage::Cast { variant: "m".into(), args: id.to_be_bytes().to_vec(), metadata: None }
 }
+/// a payload `Msg::from_boxed` cannot decode (9 bytes instead of 8); the id is still readable for
+/// the harness's own bookkeeping
+fn ser_bad(id: u64) -> SerializedMessage {
+    let mut args = id.to_be_bytes().to_vec();
+    args.push(0xff);
+    SerializedMessage::Cast { variant: "m".into(), args, metadata: None }
+}
 fn ser_id(m: &SerializedMessage) -> Option<u64> {
     match m {
-        SerializedMessage::Cast { args, .. } if args.len() == 8 => {
+        SerializedMessage::Cast { args, .. } if args.len() >= 8 => {
             let mut b = [0u8; 8];
-            b.copy_from_slice(args);
+            b.copy_from_slice(&args[..8]);
             Some(u64::from_be_bytes(b))
         }
         _ => None,
@@ -296,10 +311,10 @@ impl Message for Wrong {}
 fn exec_op(ctx: &Arc<Ctx>, op: &Op) {
     verif::point("op.start");
     match op {
-        Op::Send { via: Via::Serialized, .. } => {
+        Op::Send { via: via @ (Via::Serialized | Via::SerializedBad), .. } => {
             let id = ctx.sh.next_id.fetch_add(1, Ordering::SeqCst);
             cur_push(id);
-            let r = ctx.cell.send_serialized(ser(id));
+            let r = ctx.cell.send_serialized(if *via == Via::SerializedBad { ser_bad(id) } else { ser(id) });
             cur_pop();
             let s = match r.map_err(|b| *b) {
                 Ok(()) => format!("ret send {id} ok"),
@@ -754,6 +769,8 @@ fn gen_ops(rng: &mut Rng, depth: u32, max: u64) -> Vec<Op> {
                     _ => Via::Typed,
                 };
                 if via == Via::Serialized {
+                    // one serialized payload in four cannot be decoded by the actor
+                    let via = if rng.chance(1, 4) { Via::SerializedBad } else { via };
                     return Op::Send { nested: Vec::new(), box_fails: false, resend: false, via };
                 }
                 let nested = if depth < 2 && rng.chance(1, 5) { gen_ops(rng, depth + 1, 2) } else { Vec::new() };
@@ -1008,7 +1025,7 @@ fn gen_ports_progs(rng: &mut Rng) -> Vec<Vec<Op>> {
     }
     for _ in 0..rng.range(1, 2) {
         let n = rng.range(1, 2);
-        progs.push((0..n).map(|_| sv(match rng.below(3) { 0 => Via::Serialized, 1 => Via::Derived, _ => Via::Typed })).collect());
+        progs.push((0..n).map(|_| sv(match rng.below(7) { 0 | 1 => Via::Serialized, 2 | 3 => Via::Derived, 4 => Via::SerializedBad, _ => Via::Typed })).collect());
     }
     // shuffle the thread order (thread ids are part of the schedule)
     for i in (1..progs.len()).rev() {
@@ -1048,6 +1065,7 @@ fn main() {
             vec![vec![sr(), sr()], vec![Op::Drain]],
             // round 4: serialized / derived sends overtaken by a drain; stoppers, a killer and a drainer on one actor
             vec![vec![sv(Via::Serialized), sv(Via::Derived)], vec![Op::Drain]],
+            vec![vec![sv(Via::Typed), sv(Via::SerializedBad), sv(Via::Serialized)], vec![sv(Via::SerializedBad), Op::Drain]],
             vec![vec![Op::Stop(Some(1))], vec![Op::Stop(Some(2))], vec![Op::Kill], vec![Op::Drain], vec![sv(Via::Serialized)]],
         ];
         for p in &fixed {
